@@ -194,10 +194,17 @@ class PubSubRun:
             self.res.probes["short_control_frame"] += 1
             self.t(f"{a.name} {kind} with only {k} payload bytes")
             return
+        if ch.flag("ctl.oddhdr", 1, 8):
+            # ... and so may the other header fields a control frame has no use for (version, remaining bytes, ...)
+            a.ctl_extra = dict(reserved=ch.choose("ctl.odd.res", [1, 0xDEADBEEF, 0x1234]),
+                               remaining_bytes=ch.choose("ctl.odd.rem", [0, 5]),
+                               recv_time=ch.choose("ctl.odd.rt", [0.0, 9.5]))
+            self.res.probes["control_frame_odd_header"] += 1
         try:
             {"sub": a.subscribe, "unsub": a.unsubscribe, "pause": a.pause, "resume": a.resume}[kind](t)
         finally:
             a.ctl_dest = (0, 0)
+            a.ctl_extra = {}
         self.t(f"{a.name} {kind} {'ALL' if t == ALL else t}")
 
     def op_noise(self, a: Actor):
